@@ -117,6 +117,8 @@ type chainStep struct {
 
 func checkC14(c *Ctx) {
 	r := c.R
+	r.Rule("R10.3", "(shared with C10) a new logger starts with skip count 0: newentry copies from the parent only the documented settings (nothing-else rule)")
+	r.Rule("R18.2", "(shared with C18) the file reported is the frame's file, hardened: the shorter-equivalent step computes the path of the FILE relative to the working directory (arguments of filepath.Rel in that order)")
 	r.Rule("R14.7", "file, line and function are reported under their own keys: wherever a package function hands its parameters on to a package function with same-named parameters (key prefix / key name of the caller sub-fields, skip counts, frames), each goes to its namesake; a same-typed pair passed crosswise is a violation")
 	r.Rule("R14.1", "frame accounting: for every static call chain P -> ... -> F from an exported function P of package slog to a function F that captures the program counter, the constant-propagated skip must equal the chain length so that the captured frame is P's caller: getpc(k, extra) needs k = d+2 and runtime.Callers(n, ...) needs n = d+2 (+extra), d = number of calls between P and F; getpc itself must call runtime.Callers(skip+extra+1) and return element 0")
 	r.Rule("R14.2", "standard-library depth: for the log/slog adapter and the std log bridge the chain continues in GOROOT source; the depth from every exported log/slog.Logger / log.Logger entry point to the Handler.Handle / Writer.Write interface call is computed from the loaded standard library and must match the adapter's constant")
@@ -153,6 +155,8 @@ func checkC14(c *Ctx) {
 		packageNamesakes(c, p, "R10.8")
 		freshChildren(c, p, m, "R14.3", func(n string) bool { return n == "WithSkip" })
 		c10WithSet(c, p, m)
+		c10Creation(c, p, m)
+		c18Check(c, p, m)
 	}
 	c.Floor["R14.1"] = 50
 	c.Floor["R14.2"] = 2
